@@ -57,5 +57,8 @@ Theorem C12_receiver_curve {T} {O : Ops T} {RL : RingLaws T} (sc sc' : @scene T)
   end ->
   b < s_nb sc -> b' < s_nb sc' -> t < n_samples tm ->
   get2 (mono sc tm E s r direct rdf) b t = get2 (mono sc' tm E' s' r direct rdf') b' t.
-Proof. intros G B. exact (mono_band sc sc' G b b' B tm E E' s s' r direct rdf rdf' t). Qed.
+Proof.
+  intros G B HE Hp Hr. apply (mono_band sc sc' G b b' B tm E E' s s' r direct rdf rdf' t HE Hp).
+  destruct rdf, rdf'; exact Hr.
+Qed.
 Print Assumptions C12_receiver_curve.
